@@ -27,7 +27,7 @@ def shards(tier):
 
 def required_classes(tier):
     return ["refuse:v", "refuse:r=0 mod N", "refuse:s=0 mod N", "refuse:r not an x-coordinate", "return", "return:r>=N", "return:s>=N",
-            "return:identity", "return:high-s", "r=N", "W4:exhaustive", "soak:distinct-hashes"]
+            "return:identity", "return:high-s", "r=N", "W4:exhaustive", "soak:distinct-hashes", "r:structured-inverse"]
 
 
 def one(rec, s, h, v, r, sv, tag=None):
@@ -123,6 +123,18 @@ def run(rec):
         if r % N == 0:
             continue
         one(rec, s, z.to_bytes(32, "big"), 27 + (R[1][0] & 1), r, sv)
+    # r whose INVERSE mod N (the scalar of the last multiplication) has a structured bit pattern: aligned zero words, low weight, 2^k
+    from .common import bit_patterns
+    tgt = bit_patterns(256, rng, 3 if quick else 12) + [1 << 64, 1 << 128, (1 << 128) + 1, 1 << 192, (1 << 192) | (1 << 3), 3 << 127]
+    for t in tgt:
+        i += 1
+        if not rec.mine(i) or not (0 < t < N):
+            continue
+        r_ = pow(t, -1, N)
+        for rr in (r_, r_ + N if r_ + N < P else r_):
+            for v in (27, 28):
+                one(rec, s, rng.randbytes(32), v, rr, rng.randrange(1, N), "r:structured-inverse")
+    rec.case("r:structured-inverse", None, nontrivial=False)
     w4_small_curves(rec, s, quick)
     # soak on the real curve: more distinct hashes than a bounded table could hold, with the first ones re-probed afterwards
     if rec.shard == 1 or not quick:
